@@ -87,6 +87,7 @@ def _cmd(g, out):
 def build_once(g, scenario, work, slot):
     """One build = one process of the real CLI. Returns the path it wrote (or None)."""
     base = os.path.basename(g.src)
+    scenario = {"dirty2": "dirty", "deep2": "deep"}.get(scenario, scenario)
     if scenario in ("clean", "again"):
         d = os.path.join(work, "clean", g.gid)
         shutil.rmtree(d, ignore_errors=True)
@@ -151,7 +152,10 @@ def run_group(args):
     return g
 
 
-def judge(ctx, g, n_in_flight_note=""):
+SAME_CONDITIONS = (("clean", "again"), ("dirty", "dirty2"), ("deep", "deep2"))
+
+
+def judge(ctx, g, work=None):
     ok = {sc: v for sc, v in g.builds.items() if v[0] != "FAILED"}
     failed = {sc: v for sc, v in g.builds.items() if v[0] == "FAILED"}
     ctx.count("builds", len(g.builds))
@@ -178,12 +182,23 @@ def judge(ctx, g, n_in_flight_note=""):
         if len(ctx.samples) < 5 and g.kind not in [s.get("kind") for s in ctx.samples]:
             ctx.sample({"kind": g.kind, "input": g.name(), "sha256": list(hashes)[0], "bytes": list(ok.values())[0][1], "builds": sorted(ok)})
         return
-    # which builds deviate?
-    if len(hashes) == len(ok):
-        what = "every-build"
+    # What differs? Repeat every scenario once more under identical conditions: if two builds under the same conditions
+    # differ, the output depends on the process (hash seeds, temp names, time); otherwise on the named scenario(s).
+    if work is not None:
+        for (first, second) in SAME_CONDITIONS:
+            if first in ok and second not in g.builds:
+                run_group((g, [second], work, None, None))
+        ctx.count("builds", len(g.builds) - len(ok))
+        ok = {sc: v for sc, v in g.builds.items() if v[0] != "FAILED"}
+        hashes = {}
+        for sc, (h, n) in ok.items():
+            hashes.setdefault(h, []).append(sc)
+    if any(a in ok and b in ok and ok[a][0] != ok[b][0] for (a, b) in SAME_CONDITIONS):
+        what = "process"
     else:
         major = max(hashes.values(), key=len)
-        dev = sorted(sc for scs in hashes.values() if scs is not major for sc in scs)
+        norm = {"again": "clean", "dirty2": "dirty", "deep2": "deep"}
+        dev = sorted(set(norm.get(sc, sc) for scs in hashes.values() if scs is not major for sc in scs))
         what = "+".join(dev)
     kept = list(g.kept.values())
     summary = _diff_summary(kept[0][1], kept[1][1]) if len(kept) >= 2 else "(no second file kept)"
@@ -348,7 +363,7 @@ def run(ctx):
         argl.append((g, sc, work, None, None))
     with ThreadPoolExecutor(max_workers=NCPU) as ex:
         for g in ex.map(run_group, argl):
-            judge(ctx, g)
+            judge(ctx, g, work)
             drop_kept(g)
     ctx.count("builds_with_many_in_flight", sum(len(a[1]) for a in argl))
     ctx.count("distinct_inputs", len(programs) + 3)
